@@ -4,6 +4,7 @@ run the quick check of its property (plus any extra properties given), undo, rec
 usage: run_seeded.py [id ...] [--props C01,C03] [--tier quick]"""
 import json, os, subprocess, sys
 V = os.path.dirname(os.path.dirname(os.path.abspath(__file__)))
+REPO = os.environ.get("VERIF_REPO", "/repo")
 args = [a for a in sys.argv[1:] if not a.startswith("--")]
 extra = []
 tier = "quick"
@@ -18,18 +19,18 @@ ids = args or sorted(os.listdir(os.path.join(V, "seeded")))
 import shutil, tempfile
 _ev_backup = tempfile.mkdtemp(prefix="evidence_backup_", dir=os.path.join(V, ".cache"))
 shutil.copytree(os.path.join(V, "evidence"), os.path.join(_ev_backup, "evidence"))
-assert subprocess.run("git -C /repo status --porcelain --untracked-files=no", shell=True, capture_output=True, text=True).stdout.strip() == "", "/repo not clean"
+assert subprocess.run(f"git -C {REPO} status --porcelain --untracked-files=no", shell=True, capture_output=True, text=True).stdout.strip() == "", "/repo not clean"
 for i in ids:
     d = os.path.join(V, "seeded", i)
     meta = json.load(open(os.path.join(d, "meta.json")))
     patch = os.path.join(d, "patch.diff")
     props = [p for p in [meta["property"]] + extra if p in claimed or os.path.exists(os.path.join(V, "tools", "props", p + ".py"))]
-    if subprocess.run(["git", "-C", "/repo", "apply", "--check", patch]).returncode != 0:
+    if subprocess.run(["git", "-C", REPO, "apply", "--check", patch]).returncode != 0:
         print(i, "PATCH DOES NOT APPLY (tree changed by a fix: commit?)")
         meta.setdefault("detection", {})["note"] = "patch no longer applies to the current tree"
         json.dump(meta, open(os.path.join(d, "meta.json"), "w"), indent=1)
         continue
-    subprocess.run(["git", "-C", "/repo", "apply", patch], check=True)
+    subprocess.run(["git", "-C", REPO, "apply", patch], check=True)
     try:
         for p in props:
             r = subprocess.run(["python3", os.path.join(V, "tools", "check.py"), "--property", p, "--tier", tier],
@@ -48,7 +49,7 @@ for i in ids:
                                                    "no_failing_input_found": any("no-failing-input-found" in l for l in last)}
             print(i, p, verdict, kind, flush=True)
     finally:
-        subprocess.run(["git", "-C", "/repo", "checkout", "--", "."], check=True)
+        subprocess.run(["git", "-C", REPO, "checkout", "--", "."], check=True)
     json.dump(meta, open(os.path.join(d, "meta.json"), "w"), indent=1)
 
 shutil.rmtree(os.path.join(V, "evidence"))
